@@ -420,6 +420,9 @@ func genJSON(r *rand.Rand, depth int) any {
 	case 3:
 		return float64(r.Intn(2001)-1000) + 0.5
 	case 4, 5:
+		if r.Intn(8) == 0 {
+			return genKeyword(r)
+		}
 		return genString(r, strClasses[r.Intn(len(strClasses))])
 	case 6:
 		n := r.Intn(4)
@@ -432,7 +435,7 @@ func genJSON(r *rand.Rand, depth int) any {
 		n := r.Intn(4)
 		m := map[string]any{}
 		for i := 0; i < n; i++ {
-			m[genString(r, strClasses[1+r.Intn(len(strClasses)-1)])] = genJSON(r, depth-1)
+			m[genKey(r)] = genJSON(r, depth-1)
 		}
 		return m
 	}
@@ -441,9 +444,17 @@ func genJSON(r *rand.Rand, depth int) any {
 func genObj(r *rand.Rand) map[string]any {
 	m := map[string]any{}
 	for i, n := 0, r.Intn(3); i < n; i++ {
-		m[genString(r, strClasses[1+r.Intn(len(strClasses)-1)])] = genJSON(r, 2)
+		m[genKey(r)] = genJSON(r, 2)
 	}
 	return m
+}
+
+// genKey: an object member name; one in five is JSON-RPC vocabulary (keywords.go)
+func genKey(r *rand.Rand) string {
+	if r.Intn(5) == 0 {
+		return genKeyword(r)
+	}
+	return genString(r, strClasses[1+r.Intn(len(strClasses)-1)])
 }
 
 var priorities = [][2]int64{{0, 0}, {1, 0}, {5, 1}, {25, 2}, {125, 3}, {-5, 1}, {3, 0}}
@@ -483,6 +494,9 @@ func genRes(r *rand.Rand) spec {
 func genContent(r *rand.Rand) spec {
 	switch x := r.Intn(20); {
 	case x < 9:
+		if r.Intn(12) == 0 {
+			return textC(genKeyword(r), genAnn(r))
+		}
 		return textC(genString(r, genClass(r)), genAnn(r))
 	case x < 16:
 		return imageC(genString(r, genClass(r)), genString(r, genClass(r)), genAnn(r))
